@@ -26,8 +26,8 @@ PROP = {
     ],
     "runs": [{
         "component": "wsconc",
-        "quick": {"gen": [(1500, 16)], "enum": [(3,)]},
-        "thorough": {"gen": [(20000, 22)], "enum": [(4,)]},
+        "quick": {"gen": [(1500, 16)], "enum": [(3,), ("scenarios",)]},
+        "thorough": {"gen": [(20000, 22)], "enum": [(4,), ("scenarios",)]},
     }, {
         # callbacks of a session that follows one whose asynchronous flush never completed (the application dropped the transport
         # with the write in flight and handshakes again on the same Stream): component of C18, clause "behaves like a fresh one"
